@@ -1,0 +1,11 @@
+//go:build verif
+
+package udpcmsg
+
+// Contracts for the deductive checker in /verif (comment-only file, no declarations).
+// The control-message codec works through unsafe pointers into the oob buffer: outside the verifier's
+// reach, assumed not to touch the modelled heap.
+
+//@ func ParseLocalAddr(oob []byte) (a netip.Addr, err error)
+//@   trusted
+//@   modifies nothing
